@@ -478,6 +478,39 @@ static void build_catalogue()
 			R("PDF_Maxwell_Boltzmann x=" + hexf(x) + " a=" + hexf(m), [=] { return PDF_Maxwell_Boltzmann(x, m); });
 			R("CDF_Maxwell_Boltzmann x=" + hexf(x) + " a=" + hexf(m), [=] { return CDF_Maxwell_Boltzmann(x, m); });
 		}
+	// the 1% edge tolerance probed within 1e-6 and 1e-9 (relative) of its boundary, on a table whose ends are 0 and 1 so that the distance
+	// to the edge is represented without rounding of the query point beyond 1e-16
+	{
+		std::vector<double> X = {0.0, 0.125, 0.5, 0.75, 1.0};	// left edge interval 0.125, right 0.25
+		std::vector<double> Y = {1.0, 2.0, 0.5, 3.0, 2.5};
+		double tl = 1e-2 * (X[1] - X[0]), tr = 1e-2 * (X[4] - X[3]);
+		for(double m : {1e-6, 1e-9})
+		{
+			A("Interpolate left edge, inside tolerance by " + hexf(m), [=] { Interpolation I(X, Y); return I(-tl * (1 - m)); });
+			R("Interpolate left edge, outside tolerance by " + hexf(m), [=] { Interpolation I(X, Y); return I(-tl * (1 + m)); });
+			A("Interpolate right edge, inside tolerance by " + hexf(m), [=] { Interpolation I(X, Y); return I(1.0 + tr * (1 - m)); });
+			R("Interpolate right edge, outside tolerance by " + hexf(m), [=] { Interpolation I(X, Y); return I(1.0 + tr * (1 + m)); });
+			A("Interpolate_2D left/right edges, inside tolerance by " + hexf(m), [=] {
+				Interpolation_2D I(X, X, std::vector<std::vector<double>>(5, Y));
+				return I(-tl * (1 - m), 1.0 + tr * (1 - m));
+			});
+			R("Interpolate_2D y beyond tolerance by " + hexf(m), [=] {
+				Interpolation_2D I(X, X, std::vector<std::vector<double>>(5, Y));
+				return I(0.3, 1.0 + tr * (1 + m));
+			});
+		}
+	}
+	// the shape-parameter guard of the incomplete gamma functions crossed with x (every branch: series x < a+1, continued fraction, x = 0)
+	for(double a : {0.0, -1e-300, -1e-9, -0.25, -0.5, -0.999, -1.0, -2.5})
+		for(double x : {1e-3, 0.2, 0.6, 1.0, 5.0})
+		{
+			R("GammaP(" + hexf(x) + "," + hexf(a) + ")", [=] { return GammaP(x, a); });
+			R("GammaQ(" + hexf(x) + "," + hexf(a) + ")", [=] { return GammaQ(x, a); });
+			R("Lower_Incomplete_Gamma(" + hexf(x) + "," + hexf(a) + ")", [=] { return Lower_Incomplete_Gamma(x, a); });
+		}
+	for(double dof : {-1e-3, -0.5, -1.0, -1.5, -1.999, -4.0})
+		for(double x : {1e-3, 0.3, 0.9, 3.0})
+			R("CDF_Chi_Square(" + hexf(x) + "," + hexf(dof) + ")", [=] { return CDF_Chi_Square(x, dof); });
 	for(unsigned k : {0u, 1u, 50u, 500u})
 		for(double m : {-1e-300, -1.0})
 		{
